@@ -31,8 +31,11 @@ func c19GitSeq(idx uint64) uint64  { return (idx/400)*2 + idx%16 }
 func (c19) generateGit(r *core.Rand, tier string, idx uint64) *core.Case {
 	seq := c19GitSeq(idx)
 	c := &core.Case{Property: "C19", Engine: "git", Config: map[string]int{}, Flags: map[string]bool{}}
-	c.Flags["diverged"] = seq%2 == 0
-	c.Config["approvals"] = int(seq / 2 % 3) // how many of developers 1-3 approved the predicted merge (0, 1, 2)
+	// most telling combinations first: a real merge whose approvals decide the answer
+	combos := [][2]int{{1, 1}, {1, 2}, {0, 1}, {1, 0}, {0, 2}, {0, 0}}
+	cb := combos[seq%uint64(len(combos))]
+	c.Flags["diverged"] = cb[0] == 1
+	c.Config["approvals"] = cb[1] // how many of developers 1-3 approved the predicted merge (0, 1, 2)
 	c.Config["featureCommits"] = r.Range(1, 2)
 	c.Flags["conflictingFile"] = false
 	return c
